@@ -131,10 +131,10 @@ ALWAYS_INLINE T isqrt(T x)
     while (r * (T) r > x);
   }
   // Same as (r + 1)^2 < x but overflow safe
-  else if ((T) (r * 2) < x - r * (T) r)
+  else if ((T) r * 2 < x - r * (T) r)
   {
     do { r++; }
-    while ((T) (r * 2) < x - r * (T) r);
+    while ((T) r * 2 < x - r * (T) r);
   }
 
   return r;
